@@ -42,6 +42,12 @@ func (t *tcpT) Build(bw bool) {
 		opts[0].Value = nil
 		t.w.Inject(message.Message{Code: codes.CSM, Options: opts})
 		vrt.Quiesce("tcp: CSM consumed")
+		// ... and later updates its maximum message size with a CSM that does not repeat the Block-Wise-Transfer
+		// option: a capability missing from a later CSM keeps its previous value (RFC 8323 5.3)
+		bm := make([]byte, 4)
+		n, _ := message.EncodeUint32(bm, 4096)
+		t.w.Inject(message.Message{Code: codes.CSM, Options: message.Options{{ID: message.TCPMaxMessageSize, Value: bm[:n]}}})
+		vrt.Quiesce("tcp: second CSM consumed")
 	}
 }
 func (t *tcpT) Acquire(ctx context.Context) *pool.Message   { return t.w.CC.AcquireMessage(ctx) }
